@@ -137,7 +137,9 @@ def check(ctx, src):
     ctx.check(sugar == want, "SUGAR", f"{HR}|sugar table", f"the reader's sugar table is {sugar}", HR, 0, witness="'x no longer reads as (quote x)", detail=str(sugar))
     for ch in ("'", "`"):
         f = rq.handlers[ch][2]
-        ctx.check(norm(f.body[-1]) == "return lambda self, _: mkexpr(root, self.parse_one_form())", "SUGAR", f"{HR}|tag_as|{ch}", "tag_as must wrap exactly the next form", HR, f.lineno, detail="mkexpr(root, parse_one_form())")
+        # recognised spelling -> held; any other spelling of the returned handler is not judged here (what it must not do -
+        # share a model between uses - is POS-FRESH's business in C21)
+        ctx.decide("SUGAR", f"{HR}|tag_as|{ch}", True if norm(f.body[-1]) == "return lambda self, _: mkexpr(root, self.parse_one_form())" else None, "tag_as must wrap exactly the next form", HR, f.lineno, detail="mkexpr(root, parse_one_form())")
     for ch in ("#*", "#**"):
         ctx.check(rq.handlers[ch][0] == "hash_star", "SUGAR", f"{HR}|{ch}|handler", f"{ch} is not handled by hash_star", HR, 0, detail="hash_star")
     rep = src.hy("hy/core/hy_repr.hy")
